@@ -9,8 +9,8 @@ ORD_VARS = ["x", "y", "z", "w", "alpha", "b2", "theta_long_name", "k", "X", "Alp
 TRIP_VARS = ["t1", "t2", "t3"]
 MISS_VARS = ["m1", "m2"]
 
-CONST_POOL = [0, 1, -1, 2, 3, 0.5, -0.5, -2, 1.5, 0.25, 10, 0.1, 2.5, -3, 1.0, 2.0, 0.0, 4, 7, -1.0]
-GRID = [-2, -1, -0.5, 0, 0.5, 1, 2, 3, 0.75, 1.5, 0.3, -1.25, 1.0, 2.0, 0.0, -1.0, 4, 0.125]
+CONST_POOL = [0, 1, -1, 2, 3, 0.5, -0.5, -2, 1.5, 0.25, 10, 0.1, 2.5, -3, 1.0, 2.0, 0.0, 4, 7, -1.0, -0.0, 10.0]
+GRID = [-2, -1, -0.5, 0, 0.5, 1, 2, 3, 0.75, 1.5, 0.3, -1.25, 1.0, 2.0, 0.0, -1.0, 4, 0.125, -0.0, 0.0, 10, 10.0]
 BASES_EXP = [math.e, 2, 10, 0.5, 3.0, 1, 2.0]
 BASES_LOG = [math.e, 2, 10, 0.5, 3.0, 2.0]
 NS = [1, 2, 3, 4, 5, 6, 2.0, 3.0, 2, 2, 3]
